@@ -420,6 +420,12 @@ def build_specs(S, tier, rng, fault_free_only=False):
         if len(E["threads"]) > 1:
             d = {pid(i): rng.randint(0, 3) for i in needed_p if i not in vids}
             specs.append(dict(base, kind="delays", DelayIn=d))
+        # C05 executed: every needed input-free Async provider stays inside until the next one (cyclically) has been
+        # entered; all of them must be inside at the same time for any of them to leave before the hold gives up
+        zero_async = [i for i in needed_p if provs[i]['kind'] == 0 and provs[i]['a'] and not provs[i]['req'] and i not in vids]
+        if len(zero_async) >= 2:
+            ring = {pid(a): "enter:" + pid(zero_async[(j + 1) % len(zero_async)]) for j, a in enumerate(zero_async)}
+            specs.append(dict(base, kind="overlap", Hold=ring, ring=zero_async, Timeout=6000))
         if fault_free_only:
             continue
         fallible = [i for i in needed_p if provs[i]['e'] and i not in vids]
@@ -452,7 +458,7 @@ def run_runtime(S, tier, seed, fault_free_only=False):
         return S[key]
     if fault_free_only and "runtime" in S and S["runtime"][0] is not None:
         sp, rs, er = S["runtime"]
-        keep = [(a, b) for a, b in zip(sp, rs) if a["kind"] in ("plain", "delays")]
+        keep = [(a, b) for a, b in zip(sp, rs) if a["kind"] in ("plain", "delays", "overlap")]
         S[key] = ([a for a, b in keep], [b for a, b in keep], er)
         return S[key]
     rc, out = need_runner(S)
@@ -513,7 +519,7 @@ def deep_specs(S, ks, rng):
     return specs
 
 def judge_runtime(R, S, tier, seed, props, given=None):
-    """property-level judgement of every run; props: subset of {C02, C03, C06, C07, C08}"""
+    """property-level judgement of every run; props: subset of {C01, C02, C03, C05, C06, C07, C08}"""
     specs, results, err = given if given is not None else run_runtime(S, tier, seed)
     if specs is None:
         R.violation("runtime runs impossible: " + err, {"kind": "correspondence-broken", "correspondence": "rendered package + generated injectors compile", "detail": err})
@@ -603,6 +609,18 @@ def judge_runtime(R, S, tier, seed, props, given=None):
                     if prod is not None and prod not in vids and provs[prod]['kind'] == 0:
                         if exited_at.get(pid(prod), 10**9) > e["Seq"]:
                             viol("C01", None, "%s: %s entered before its producer %s returned" % (sp["Name"], e["ID"], pid(prod)))
+        elif sp["kind"] == "overlap":
+            seq = {(e["Kind"], e["ID"]): e["Seq"] for e in ev}
+            ring = sp["ring"]
+            if not rs["Returned"]:
+                viol("C03", None, "%s: fault-free call with overlapping input-free Async providers does not return" % sp["Name"])
+            for j, a in enumerate(ring):
+                b = ring[(j + 1) % len(ring)]
+                ea, xb = seq.get(("enter", pid(b))), seq.get(("exit", pid(a)))
+                if ea is None or (xb is not None and xb < ea):
+                    viol("C05", None, "%s: input-free Async provider %s was %s although %s stayed inside waiting for it: the two cannot be in flight together" % (
+                        sp["Name"], pid(b), "never entered" if ea is None else "entered only after %s had returned" % pid(a), pid(a)))
+                    break
         elif sp["kind"] == "fail":
             f = sp["fail"]
             invoked_fail = pid(f) in failed
